@@ -7,6 +7,7 @@ import (
 	"os"
 	"path/filepath"
 	"regexp"
+	"runtime"
 	"strings"
 	"time"
 
@@ -430,6 +431,7 @@ func init() {
 		QuickBudget: 150 * time.Second, ThoroughBudget: 22 * time.Minute, HangBound: 150 * time.Second,
 		Oracles: map[string]eng.Oracle{"link": c35Oracle},
 		Run: func(w *eng.W) {
+			runtime.GOMAXPROCS(2)
 			defer func() {
 				if workerSandbox != nil {
 					os.RemoveAll(filepath.Dir(workerSandbox.root))
